@@ -117,6 +117,8 @@ func readLine(reader *bufio.Reader) ([]byte, error) {
 	if !isPrefix {
 		return line, err
 	}
+	// the fragment is a view of the reader's buffer, which the next ReadLine overwrites: keep a copy
+	line = append([]byte(nil), line...)
 	for {
 		b, isPrefix, err := reader.ReadLine()
 		if err != nil {
